@@ -57,6 +57,39 @@ def run(ctx):
                     pts.append((u,))
         run_points(ctx, prog, 'GCR', 'P32E2::sqrt', path, P32, pts, sqrt_spec(P32))
         ctx.count('hard_case_points', len(pts))
+    # (a) P16E1::sqrt on *every* non-negative encoding, singly (2^15 singleton cells; the negative half is one cell above): together with the
+    #     interval cells this decides P16E1::sqrt for all 2^16 patterns, Newton-Raphson path included.
+    # (b) P32E2::sqrt next to the edges and the middle of every bin of its reciprocal-root table - where the residual of a piecewise-linear
+    #     seed peaks, so where an error-budget regression of the iteration shows first - on the hardest-to-round arguments there
+    #     (tools/gen_sqrt_hard.c, mode "edges": bins = top 3 fraction bits x parity, as read off the index expression; windows of 2^19).
+    jobs = []
+    p16 = prog.inherent(P16.tykey, 'sqrt')
+    if p16:
+        jobs.append(dict(rule='GCR', label='P16E1::sqrt', path=p16, pty=P16, points=[(u,) for u in range(1, 0x8000)], spec=sqrt_spec(P16)))
+    edges = os.path.join(os.path.dirname(data), 'sqrt_hard_edges_fb27.txt')
+    if path and os.path.exists(edges):
+        pp = P32.posit
+        K, keep, bases = 512, (192 if ctx.tier == 'quick' else 512), ((0, -2) if ctx.tier == 'quick' else (0, 2, -4, -2))
+        pts = set()
+        for i, l in enumerate(open(edges)):
+            if i % K >= keep:
+                continue
+            e_, X, d_ = l.split()
+            for base in bases:
+                v = Fraction(int(X), 1 << 27) * Fraction(2) ** (base + int(e_))
+                u = pp.encode(v)
+                if pp.decode(u) == v:
+                    pts.add((u,))
+        pts = sorted(pts)
+        jobs.append(dict(rule='GCR', label='P32E2::sqrt', path=path, pty=P32, points=pts, spec=sqrt_spec(P32)))
+        ctx.count('bin_edge_hard_case_points', len(pts))
+    if jobs:
+        n = run_points_parallel(ctx, prog, jobs, chunk=800)
+        ctx.count('singleton_points_decided_in_workers', n)
+        if p16:
+            ctx.count('p16_sqrt_encodings_decided_singly', 0x7fff)
+        ctx.rules.append('singleton cells: P16E1::sqrt on every non-negative encoding; P32E2::sqrt on the hardest-to-round arguments overall and next to the edges / middle of every table bin')
     ctx.require('C06 decided cells', tot, 10)
-    ctx.undecided['general_path'] = 'table + Newton-Raphson + final rounding of P16E1/P32E2 sqrt are not decided'
-    return LEVEL, 'sqrt: NaR/negative/zero cells for three types by abstract interpretation; P8E0 fully decided by table agreement (R4).'
+    ctx.undecided['general_path'] = 'Newton-Raphson + final rounding of P32E2::sqrt between the probed arguments are not decided (P16E1::sqrt is decided for every encoding by enumeration, P8E0::sqrt by its table)'
+    return LEVEL, ('sqrt: NaR/negative/zero cells for three types by abstract interpretation; P8E0 fully decided by table agreement (R4); P16E1 decided on every '
+                   'encoding singly; P32E2 on hard-to-round arguments (overall and per table-bin edge).')
